@@ -192,7 +192,7 @@ def r2_complete_records(chk, mapb):
                     pass
                 if neg:
                     torn_true = not torn_true
-                tests.append(dict(node=n, covers=d, kind=a, torn="true" if torn_true else "false"))
+                tests.append(dict(node=n, covers=d, kind=a, torn="true" if torn_true else "false", decl=decl, op=op, swapped=swapped))
                 break
     key = f"{mapb.key}:scan-admits-only-complete-records"
     if not tests:
@@ -229,6 +229,47 @@ def r2_complete_records(chk, mapb):
     else:
         chk.ok("C03.R2", key, mapb.where(tests[0]["node"].ast),
                f"{len(tests)} completeness test(s) ({', '.join(short(t['node'].ast.test, 40) for t in tests)}) dominate {len(stores)} index store(s)")
+    # a test against the file size must compare the record's exact end: pos + header + key + value
+    for t in tests:
+        if t["kind"] != "size":
+            continue
+
+        def terms(e, out):
+            if isinstance(e, ast.BinOp) and isinstance(e.op, ast.Add):
+                terms(e.left, out)
+                terms(e.right, out)
+            elif isinstance(e, ast.Attribute) and isinstance(e.value, ast.Name) and record_ctor(e.value.id) is not None:
+                ctor = record_ctor(e.value.id)
+                mem = rec_cls.members.get(e.attr)
+                if e.attr in rec_fields:
+                    terms(ctor[e.attr], out)
+                elif mem is not None and mem.getter is not None:
+                    ret = [x for x in ast.walk(mem.getter) if isinstance(x, ast.Return)][0].value
+
+                    class Sub(ast.NodeTransformer):
+                        def visit_Attribute(self, n):
+                            if isinstance(n.value, ast.Name) and n.value.id == "self":
+                                return ast.Attribute(value=ast.Name(id=e.value.id, ctx=ast.Load()), attr=n.attr, ctx=ast.Load())
+                            return self.generic_visit(n)
+                    import copy
+                    terms(Sub().visit(copy.deepcopy(ret)), out)
+                else:
+                    out.append(norm(e))
+            else:
+                out.append(norm(e))
+            return out
+
+        got = sorted(terms(t["decl"], []))
+        want = sorted(["pos", "_BLOCK_HEADER.size", klen, rlen])
+        strict = isinstance(t["op"], (ast.Gt, ast.LtE)) if not t["swapped"] else isinstance(t["op"], (ast.Lt, ast.GtE))
+        problems = []
+        if got != want:
+            problems.append(f"the compared extent is {' + '.join(got)}, the record ends at {' + '.join(want)}")
+        if not strict:
+            problems.append("a record ending exactly at the end of the file is rejected (the comparison must be strict on the torn side)")
+        chk.decide(not problems, "C03.R2", f"{mapb.key}:completeness-test-compares-exact-end", mapb.where(t["node"].ast),
+                   f"`{short(t['node'].ast.test, 50)}` compares pos + header + key + value with the file size",
+                   f"`{short(t['node'].ast.test, 50)}`: " + "; ".join(problems) + " - a record torn inside its last bytes is admitted (or a complete last record dropped)")
     return dict(tests=tests, tnodes=tnodes, header=header, cfg=cfg, in_loop=in_loop, stores=stores)
 
 
@@ -305,3 +346,33 @@ def r4_torn_tail(chk, mapb, put):
                         bad_mode = True
     chk.decide(not bad_mode, "C03.R4", key, f.where(t), f"`{short(t, 50)}` in {f.qualname}",
                "the torn tail is truncated only in a mode other than append")
+    # the guard must be decidable while open() is still running: map_blocks is called before open() marks the handle as open
+    ukv = chk.prog.cls(f"{UKV}:UKVFile")
+
+    def closure(e, seen):
+        out = set()
+        for n in ast.walk(e):
+            if isinstance(n, ast.Attribute) and isinstance(n.value, ast.Name) and n.value.id == "self" and n.attr not in seen:
+                seen.add(n.attr)
+                out.add(n.attr)
+                mem = ukv.members.get(n.attr)
+                if mem is not None and mem.getter is not None:
+                    out |= closure(mem.getter, seen)
+        return out
+
+    deps = set()
+    for g in ast.walk(f.node):
+        if isinstance(g, ast.If) and any(x is t for b in g.body for x in ast.walk(b)):
+            deps |= closure(g.test, set())
+    if f.qualname.endswith("map_blocks"):
+        opn = chk.prog.func(f"{UKV}:UKVFile.open")
+        from ..cfg import CFG
+        cfg = CFG(opn.node)
+        mb = {n.id for n in cfg.nodes if n.kind == "stmt" and has_call(n.ast, {"self.map_blocks"})}
+        opened = {n.id for n in cfg.nodes if n.kind == "stmt" and isinstance(n.ast, ast.Assign) and norm(n.ast.targets[0]) == "self._closed" and norm(n.ast.value) == "False"}
+        closed_during_scan = bool(mb) and all(not (cfg.reachable([o], labels={"next", "true", "false"}) & mb) for o in opened) and bool(opened)
+        stale = deps & {"_closed", "closed"}
+        chk.decide(not (stale and closed_during_scan), "C03.R4", f"{UKV}:UKVFile:torn-tail-guard-decidable-during-open", f.where(t),
+                   f"the truncation guard depends on {sorted(deps)} only",
+                   f"the truncation guard depends on {sorted(stale)} (through {sorted(deps - stale)}), but map_blocks runs inside open() before `_closed = False`: "
+                   "the guard is always false and the torn tail is never discarded")
